@@ -27,7 +27,8 @@ ASSUMPTIONS = ["texts contain no ESC; a RESULT text containing ESC '[' (replace 
                "split is called with an explicit separator ('' included: ValueError like str) or a regex (capture groups are "
                "ignored as documented: pieces = text between the matches of the whole pattern; = re.split when there are no "
                "groups; empty matches, back-references, inline flags included), without maxsplit (the statement names explicit separators and regexes). Outside it "
-               "and not checked: split() with sep=None keeps leading/trailing empty pieces, maxsplit raises "
+               "and not checked: split() with sep=None on a text with leading/trailing whitespace keeps empty end pieces "
+               "(judged against str.split() only on texts without leading/trailing whitespace), maxsplit raises "
                "NotImplementedError",
                "fill characters are one-character strs, widths are ints (anything else is str's own TypeError)",
                "a regex is matched by CPython's re: the model receives the match spans",
@@ -81,7 +82,9 @@ def layouts_for(t):
 TEXTS = ["a,b,,c", ",a,", "ab", "", "a b  c", "l1\nl2\r\nl3\rl4\n", "x\n", "\n\nx", "Hello World", "  pad  ", "aXbXXc", "tab\there",
          "ab\x0bc\x0cd\x1ce\x85f g h\x1di\x1ej", "aaa", "漢字 x", "\r\n\r", "e\u0301\u200bx", "\u0301a",
          # the 8-bit CSI and a lone ESC are ordinary characters of a text (only ESC '[' is the open finding D27)
-         "x\x9b4my ", " a\x1bb\x9b", "\x9b31m"]
+         "x\x9b4my ", " a\x1bb\x9b", "\x9b31m",
+         # whitespace as str.split() understands it: NBSP, NEL, LS/PS, ideographic and em space, the separators 1C-1F
+         "a\xa0b\x85c d", "a\u2028b\u2029c\u3000d", "a\u2003b\x1cc\x1dd\x1ee\x1ff", "a \t\xa0 b\u2009c"]
 
 STR_METHODS = ["upper", "lower", "capitalize", "title", "swapcase", "casefold", "strip", "lstrip", "rstrip", "center", "zfill",
                "replace", "expandtabs", "removeprefix", "removesuffix"]
@@ -90,7 +93,7 @@ BYTES_METHODS = ["encode"]
 OTHER_METHODS = ["find", "rfind", "index", "rindex", "count", "startswith", "endswith", "isalpha", "isdigit", "isspace", "isupper",
                  "islower", "istitle", "isalnum", "isidentifier", "isprintable", "isascii", "isdecimal", "isnumeric", "partition",
                  "rpartition"]
-NATIVE = ["split", "split_regex", "splitlines", "ljust", "rjust", "join"]
+NATIVE = ["split", "split_regex", "split_default", "splitlines", "ljust", "rjust", "join", "join_iter"]
 
 
 def arg_pool(name, t):
@@ -121,6 +124,15 @@ def arg_pool(name, t):
         return [(s,) for s in subs[:6]]
     if name == "rsplit":
         return [(s,) for s in subs[:6]] + [(), (None, 1), (subs[0], 1)]
+    if name == "split_default":
+        # split() / split(None): whitespace runs as str.split() understands whitespace; only for texts without leading or
+        # trailing whitespace (there FmtStr.split() keeps empty end pieces - outside the statement)
+        return [(), (None,)] if t and not t[0].isspace() and not t[-1].isspace() else []
+    if name == "join_iter":
+        red = ["f", [["q", {"fg": 31}]]]
+        return [(kind, items) for kind in ("gen", "iter", "map", "tuple", "dictkeys", "list")
+                for items in (["a", "b"], ["x", "yz", ""], ["x", red, "y"], [])
+                if not (kind == "dictkeys" and any(not isinstance(x, str) for x in items))]
     if name == "split":
         # '.', '[|]', 'a|b' are ALSO used as regexes below (same text, other mode): literal mode must not care
         seps = sorted({",", "X", " ", "aa", "a", ",,", "b,", "zz", "\n", "ab", "\r\n", ".", "[|]", "a|b", t, t[:1], t[-1:], t[1:3]} - {""})
@@ -165,6 +177,11 @@ def mk_cases(ctx):
                 for li, f in enumerate(lays):
                     if not ctx.thorough and name not in NATIVE and li in (2, 8, 10) and len(t) > 4:
                         continue
+                    if name == "join_iter" and li >= 4 and not ctx.thorough:
+                        continue
+                    if not ctx.thorough and "\u2003" in t + "\u2003" and any(ch in t for ch in "\xa0\u2028\u2003\u2009") \
+                            and name not in ("split_default", "split", "rsplit", "strip", "splitlines", "ljust", "center", "upper"):
+                        continue
                     cases.append(dict(m=name, args=list(args), f=f, lay=li))
     # the Lean witness of the open finding D27 (C15_delegate_witness), replayed on the real code every run
     cases.append(dict(m="replace", args=["a", "\x1b[31mx\x1b[39m"], f=[("a", {})], lay=0))
@@ -183,12 +200,34 @@ def build(c):
     if name == "join":
         cache = {}
         return f, [[join_item(x, f, cache) for x in args[0]]]
+    if name == "join_iter":
+        cache = {}
+        return f, [args[0], [join_item(x, f, cache) for x in args[1]]]
     return f, list(args)
+
+
+def one_shot(kind, items):
+    """the iterable handed to join: built afresh for every call"""
+    if kind == "gen":
+        return (x for x in items)
+    if kind == "iter":
+        return iter(list(items))
+    if kind == "map":
+        return map(lambda x: x, items)
+    if kind == "tuple":
+        return tuple(items)
+    if kind == "dictkeys":
+        return dict.fromkeys(items).keys()
+    return list(items)
 
 
 def do_call(f, name, args):
     if name == "split_regex":
         return f.split(args[0], regex=True)
+    if name == "split_default":
+        return f.split(*args)
+    if name == "join_iter":
+        return f.join(one_shot(args[0], args[1]))
     return getattr(f, name)(*args)
 
 
@@ -256,6 +295,10 @@ def call_str(c):
         return out
     if name == "join":
         return s.join("".join(t for t, _ in join_item_chunks(x, c["f"])) for x in args[0])
+    if name == "join_iter":
+        return s.join(one_shot(args[0], ["".join(t for t, _ in join_item_chunks(x, c["f"])) for x in args[1]]))
+    if name == "split_default":
+        return s.split(*args)
     return getattr(s, name)(*args)
 
 
@@ -297,6 +340,10 @@ def line(c):
         return "%s %s %d %s" % (name, fe, args[0], wire.enc_text(args[1]) if len(args) > 1 else "N")
     if name == "join":
         return " ".join(["join", fe] + [wire.enc_chunks(join_item_chunks(x, c["f"])) for x in args[0]])
+    if name == "join_iter":
+        return " ".join(["join", fe] + [wire.enc_chunks(join_item_chunks(x, c["f"])) for x in args[1]])
+    if name == "split_default":
+        return "splitspans %s %s" % (fe, ",".join("%d-%d" % sp for sp in ws_spans(s)) or "-")
     # delegated: the real str result is the value of the uninterpreted method
     try:
         r = call_str(c)
@@ -309,6 +356,21 @@ def line(c):
     if isinstance(r, bytes):
         return "delegate %s bytes %s" % (fe, ",".join(str(b) for b in r) or "e")
     return "delegate %s other x" % fe
+
+
+def ws_spans(s):
+    """maximal runs of characters str.isspace() calls whitespace (what str.split() splits at)"""
+    out, i = [], 0
+    while i < len(s):
+        if s[i].isspace():
+            j = i
+            while j < len(s) and s[j].isspace():
+                j += 1
+            out.append((i, j))
+            i = j
+        else:
+            i += 1
+    return out
 
 
 def canon(reply):
@@ -414,7 +476,7 @@ def _oracle(c):
         return w
     if exp_exc is not None:
         return "%s%r returned %r, str raises %s" % (name, tuple(args), r, type(exp_exc).__name__)
-    if name in ("split", "split_regex", "splitlines"):
+    if name in ("split", "split_regex", "split_default", "splitlines"):
         if not (isinstance(r, list) and all(isinstance(x, FmtStr) for x in r)):
             return "%s did not return a list of FmtStr" % name
         if [x.s for x in r] != exp:
@@ -424,6 +486,8 @@ def _oracle(c):
             gaps = [len(args[0])] * (len(exp) - 1)
         elif name == "split_regex":
             gaps = [len(m.group(0)) for m in re.finditer(args[0], s)]
+        elif name == "split_default":
+            gaps = [b - a for a, b in ws_spans(s)]
         else:
             full = s.splitlines(True)
             gaps = [len(w) - len(p) for w, p in zip(full, exp)]
@@ -434,9 +498,9 @@ def _oracle(c):
                 return "%s%r: piece %d has formatting %r, its characters had %r" % (name, tuple(args), i, cells(piece), want)
             pos += len(exp[i]) + (gaps[i] if i < len(gaps) else 0)
         return None
-    if name == "join":
+    if name in ("join", "join_iter"):
         want = []
-        for i, x in enumerate(args[0]):
+        for i, x in enumerate(args[0] if name == "join" else args[1]):
             if i:
                 want += cs
             want += wire.cells_of_chunks(join_item_chunks(x, c["f"]))
